@@ -17,6 +17,33 @@ case "$ID" in
   C01|C02|C03|C04|C05|C07|C08|C09|C10|C11|C12|C13|C16|C17|C18)
     build rel cargo build --release --offline
     exec "$B/rel/release/mc" "$ID" "$@" ;;
+  C06)
+    build rel cargo build --release --offline
+    build dbg cargo build --profile dbg --offline
+    build chk cargo build --release --offline --features index-positions,prohibit-unsafe
+    if [ "${1:-}" = "--replay" ]; then exec "$B/rel/release/mc" C06 "$@"; fi
+    rm -f "$B"/c06_dbg.* "$B"/c06_chk.*
+    "$B/dbg/dbg/mc" c06-worker "$B/c06_dbg" || { echo "MACHINERY: C06 dbg worker failed"; exit 3; }
+    "$B/chk/release/mc" c06-worker "$B/c06_chk" || { echo "MACHINERY: C06 chk worker failed"; exit 3; }
+    C06_WORKERS="$B/c06_dbg,$B/c06_chk" exec "$B/rel/release/mc" C06 "$@" ;;
+  C15)
+    build rel cargo build --release --offline
+    build idx cargo build --release --offline --features index-positions
+    build pro cargo build --release --offline --features prohibit-unsafe
+    build chk cargo build --release --offline --features index-positions,prohibit-unsafe
+    build u16 cargo build --release --offline --features utf16
+    build nostd cargo build --release --offline --no-default-features --features nostd,pikevm
+    if [ "${1:-}" = "--replay" ]; then exec "$B/rel/release/mc" C15 "$@"; fi
+    W=""
+    for v in idx pro chk u16 nostd; do
+      rm -f "$B/c15_$v".*
+      timeout 600 "$B/$v/release/mc" c15-worker "$B/c15_$v" || { echo "MACHINERY: C15 worker $v failed"; exit 3; }
+      W="$W,$B/c15_$v"
+    done
+    C15_WORKERS="$W" exec "$B/rel/release/mc" C15 "$@" ;;
+  C14)
+    build u16dbg cargo build --profile dbg --offline --features utf16
+    exec "$B/u16dbg/dbg/mc" C14 "$@" ;;
   case)
     build rel cargo build --release --offline
     exec "$B/rel/release/mc" case "$@" ;;
